@@ -91,6 +91,31 @@ void prop(DP &dp, const ref::Bytes &sched, Ctx &ctx) {
 	std::vector<ThreadPlan> plans(nthreads);
 	std::vector<uint8_t> caps;
 	unsigned total_sends = 0;
+	auto fn_of = [](const char *name) { for (size_t q = 0; q < send_table().size(); q++) if (!strcmp(send_table()[q].name, name)) return (int) q; return 0; };
+	if (deferred_mode && dp.chance(140)) {
+		// check-then-act window of the send buffer: a message of thread 0 that needs a pre-flush (fill + L1 > capacity) while
+		// the receiver thread releases a deferred message that still fits the stale fill level (fill + L2 <= capacity,
+		// L1 + L2 > capacity). Sizes are generated around these bounds; whether the two threads meet is up to the schedule.
+		ctx.tag("pre-flush-vs-release-recipe");
+		auto add = [&](SendCall c) { Op op; op.k = Op::SEND; op.call = c; node_types[key(c.addr)].insert(send_table()[(size_t) c.fn].type); plans[0].ops.push_back(op); total_sends++; };
+		unsigned fill_msgs = (unsigned) dp.range(1, 3);                // 6 bytes each
+		unsigned fill = 6 * fill_msgs;
+		unsigned L1 = (unsigned) dp.range((int) (65 - fill), 60);
+		unsigned L2lo = 65 - L1 < 8 ? 8 : 65 - L1, L2hi = 64 - fill < 60 ? 64 - fill : 60;
+		unsigned L2 = (unsigned) dp.range((int) L2lo, (int) (L2hi < L2lo ? L2lo : L2hi));
+		for (int r = 0; r < 2; r++) {                                   // 2 x 32 response bytes: the second request is deferred
+			SendCall c = draw_send(dp, true, fn_of("bidib_send_vendor_get"));
+			c.addr = {0x11};
+			c.p1 = dp.bytes(r == 0 ? 3 : L2 - 7, false);
+			add(c);
+		}
+		{ Op op; op.k = Op::FLUSH; plans[0].ops.push_back(op); }
+		for (unsigned r = 0; r < fill_msgs; r++) { SendCall c = draw_send(dp, true, fn_of("bidib_send_sys_ping")); c.addr = {0x12}; add(c); }
+		{ Op op; op.k = Op::ANS; plans[0].ops.push_back(op); }
+		{ SendCall c = draw_send(dp, true, fn_of("bidib_send_string_set")); c.addr = {0x13}; c.p1 = dp.bytes(L1 - 8, false); add(c); }
+		{ Op op; op.k = Op::ADV; op.val = 12000; plans[0].ops.push_back(op); }
+		{ Op op; op.k = Op::FLUSH; plans[0].ops.push_back(op); }
+	}
 	for (unsigned t = 0; t < nthreads; t++) {
 		unsigned nops = (unsigned) dp.range(1, 40);
 		for (unsigned i = 0; i < nops && dp.more(); i++) {
@@ -113,8 +138,21 @@ void prop(DP &dp, const ref::Bytes &sched, Ctx &ctx) {
 				if (deferred_mode) {
 					// few nodes, so that budgets overflow; sys_enable/disable (broadcast semantics) stay out of this mode
 					if (fixed_addr) continue;
+					if (dp.chance(110)) {
+						// long messages: two of them never fit one packet, so every "does it still fit" decision matters
+						static const char *BIG[] = {"bidib_send_string_set", "bidib_send_vendor_set", "bidib_send_vendor_get", "bidib_send_fw_update_op_data"};
+						const char *want = BIG[dp.pick(4)];
+						for (size_t q = 0; q < send_table().size(); q++)
+							if (!strcmp(send_table()[q].name, want)) {
+								op.call = draw_send(dp, true, (int) q);
+								size_t len = (size_t) dp.range(30, 52);
+								if (!strcmp(want, "bidib_send_vendor_set")) { op.call.p1 = dp.bytes(len / 2, true); op.call.p2 = dp.bytes(len - len / 2, true); }
+								else op.call.p1 = dp.bytes(len, true);
+							}
+					}
+					const SendFn &f2 = send_table()[(size_t) op.call.fn];
 					op.call.addr = {(uint8_t) (1 + dp.pick(3))};
-					node_types[key(op.call.addr)].insert(f.type);
+					node_types[key(op.call.addr)].insert(f2.type);
 					total_sends++;
 					break;
 				}
@@ -307,6 +345,6 @@ PropReg reg({"C01", prop,
              "non-trivial: the case's wire image contains an escaped payload byte or an escaped CRC, or a packet "
              "whose escaped image exceeds the 312-byte staging buffer, or a capacity > 64 was announced, or >=2 "
              "threads sent with >=1 honoured preemption; distinct = distinct wire images",
-             700, 24, false});
+             700, 60, false});
 
 }  // namespace
